@@ -140,6 +140,12 @@ pub fn with_poison(ops: Vec<Op>) -> Vec<Op> {
                 if let Some(padded) = zero_pad(&chunks[0]) {
                     out.push(Op::Feed(vec![padded], *utf8));
                 }
+                // the private marker is only meaningful for SM / RM: everywhere else it is ignored
+                if let Some(rest) = chunks[0].strip_prefix("\x1b[") {
+                    if !rest.contains('?') && !rest.ends_with('h') && !rest.ends_with('l') && !rest.contains('\x1b') {
+                        out.push(Op::Feed(vec![format!("\x1b[?{}", rest)], *utf8));
+                    }
+                }
             }
         }
         out.push(op);
